@@ -23,10 +23,9 @@
       verdicts, its set of loaded items and its namespace answers must be the specification's.
 """
 import json
-import os
 import random
+import re
 import shutil
-import sys
 import tempfile
 
 import lib
@@ -447,8 +446,6 @@ def metamorphic(res, cases, stats, max_report=3):
 
 
 # ------------------------------------------------------------------------------------------------ correspondence
-import re
-
 IDENT_RE = re.compile(r"(?m)^\s*identity\s+([A-Za-z0-9_.-]+)")
 
 
